@@ -30,6 +30,10 @@ FAULTS = {
     'bracket': ('A \\[ x\n\nKeep', {}, 2, ['Keep']),
     'bracket_end': ('A \\[', {}, 2, []),
     'dd': ('A $$ x + y\n\nKeep', {}, 2, ['Keep']),
+    # the same with the simple-equations option (--seqs)
+    'bracket_seqs': ('A \\[ x\n\nKeep', {'seqs': True}, 2, ['Keep']),
+    'equation_seqs': ('A\n\\begin{equation}\nx = y.\n\nKeep', {'seqs': True}, 2, ['Keep']),
+    'dd_seqs': ('A $$ x + y\n\nKeep', {'seqs': True}, 2, ['Keep']),
     'equation': ('A\n\\begin{equation}\nx = y\n\nKeep', {}, 2, ['Keep']),
     # later rows: any position inside the unfinished equation is accepted as "the problem"
     'align_row2': ('\\begin{align}\na &= b \\\\\n c\n\nKeep', {'pack': 'amsmath'}, (0, 26), ['Keep']),
